@@ -151,9 +151,11 @@ def signals(rec):
     try:
         ocp = Ocp(t0=0.5, T=T)
         x = ocp.state(); u = ocp.control(); w = ocp.variable()
+        vb = ocp.variable(grid='bspline', order=max(d, 1))       # the variable is declared before the parameter
         p = ocp.parameter(grid='bspline', order=d)
-        vb = ocp.variable(grid='bspline', order=max(d, 1))
         ocp.set_der(x, u + p + 2 * w + vb)
+        # a rate limit on the variable: its derivative signal joins the family of signals
+        ocp.subject_to(ocp.der(vb) <= 1000)
         ocp.add_objective(ocp.integral(u ** 2) + w ** 2 + ocp.integral(vb ** 2, grid='control'))
         ocp.set_value(p, ca.DM([fl(c) for c in rec['coef']]).T)
         ocp.solver('ipopt')
@@ -165,7 +167,8 @@ def signals(rec):
         xv = np.zeros(vx.numel()); xv[wloc[0]] = 0.75 / wloc[1]
         g = np.array(ca.Function('g', [vx, vp], [opti.g])(xv, pvv)).reshape(-1)
         lb = np.array(ca.Function('g', [vx, vp], [opti.lbg])(xv, pvv)).reshape(-1)
-        got = sorted(abs(v) for v in (g - lb) if abs(v) > 1e-12)
+        ub = np.array(ca.Function('g', [vx, vp], [opti.ubg])(xv, pvv)).reshape(-1)
+        got = sorted(abs(v) for v, l_, u_ in zip(g - lb, lb, ub) if l_ == u_ and abs(v) > 1e-12)      # equality rows: the dynamics
         if any(isbad(cv) for row in rec['colvals'] for cv in row): res.append(('C17.b:ode_param_dc', 'inconclusive', ''))
         else:
             want = sorted(abs(fl(cv) + 1.5) for row in rec['colvals'] for cv in row if abs(fl(cv) + 1.5) > 1e-12)
